@@ -32,7 +32,7 @@ def items(tier):
         if tier == "quick" and p not in QUICK:
             continue
         a = alpha(p)
-        Ls = [maxL] if tier == "quick" else range(0, maxL + 1)
+        Ls = [maxL] if tier == "quick" else range(0, (maxL if p in QUICK else maxL - 1) + 1)
         for L in Ls:
             for api in (["pike.Search", "pike.SlotTable", "bt.Search", "dfa.Find", "dfa.SearchFirstAt", "dfa.IsMatch", "dfa.Anchored", "dfa.Reverse"] if tier == "quick" else ["pike.Search", "pike.IsMatch", "pike.SlotTable", "bt.Search", "bt.IsMatch", "dfa.Find", "dfa.SearchFirstAt", "dfa.IsMatch", "dfa.Anchored", "dfa.Reverse"]):
                 if api == "dfa.Reverse" and not lbfree:
